@@ -660,10 +660,13 @@ static int set_global (hawk_rtx_t* rtx, int idx, hawk_nde_var_t* var, hawk_val_t
 
 HAWK_INLINE void hawk_rtx_setretval (hawk_rtx_t* rtx, hawk_val_t* val)
 {
-	hawk_rtx_refdownval (rtx, HAWK_RTX_STACK_RETVAL(rtx));
+	if (HAWK_LIKELY(HAWK_RTX_STACK_RETVAL(rtx))) hawk_rtx_refdownval (rtx, HAWK_RTX_STACK_RETVAL(rtx));
+	/* function implementations pass the result of hawk_rtx_make*val() straight
+	 * to this function. a null value means that the value could not be created.
+	 * it is stored as it is and hawk_rtx_evalcall() turns it into a failed call */
 	HAWK_RTX_STACK_RETVAL(rtx) = val;
 	/* should use the same trick as run_return */
-	hawk_rtx_refupval (rtx, val);
+	if (HAWK_LIKELY(val)) hawk_rtx_refupval (rtx, val);
 }
 
 HAWK_INLINE int hawk_rtx_setgbl (hawk_rtx_t* rtx, int id, hawk_val_t* val)
@@ -7095,6 +7098,17 @@ hawk_val_t* hawk_rtx_evalcall (
 		if (call->u.fnc.spec.impl)
 		{
 			n = call->u.fnc.spec.impl(rtx, &call->u.fnc.info);
+			if (HAWK_UNLIKELY(!HAWK_RTX_STACK_RETVAL(rtx)))
+			{
+				/* hawk_rtx_setretval() was given a value that could not be created.
+				 * the error information left by hawk_rtx_make*val() is kept */
+				HAWK_RTX_STACK_RETVAL(rtx) = hawk_val_nil;
+				if (n >= 0)
+				{
+					if (hawk_rtx_geterrnum(rtx) == HAWK_ENOERR) hawk_rtx_seterrnum (rtx, HAWK_NULL, HAWK_ENOMEM);
+					n = -1;
+				}
+			}
 			if (HAWK_UNLIKELY(n <= -1)) ADJERR_LOC (rtx, &call->loc);
 		}
 	}
